@@ -408,6 +408,28 @@ func execC13(t *testing.T, w *core.World, p *run.Plan, r *run.Result) {
 			}
 		}
 		w.Visit(hash64("grid|" + cell))
+		// the bounded grid of the property: per connection (alive?, blocks behind the newest known head: 0, 1, 2+),
+		// for best-ping also the order of the round-trip times
+		coarse := fmt.Sprintf("s%d", p.Get("strategy", 0))
+		for _, c := range b.Conns {
+			d := int(maxHead) - int(c.HeadSeqno)
+			if d > 2 {
+				d = 2
+			}
+			coarse += fmt.Sprintf("|%v,%d", c.IsOK, d)
+			if p.Get("strategy", 0) == 0 {
+				rank := 0
+				for _, o := range b.Conns {
+					if o.AvgRTT < c.AvgRTT || (o.AvgRTT == c.AvgRTT && o.ID < c.ID) {
+						rank++
+					}
+				}
+				coarse += fmt.Sprintf(",r%d", rank)
+			}
+		}
+		if n := len(b.Conns); n >= 1 && n <= 4 {
+			w.VisitGrid(uint8(n), hash64(coarse))
+		}
 		desc := func() string {
 			s := fmt.Sprintf("strategy=%s before: best=%d", strategy, b.BestID)
 			for _, c := range b.Conns {
@@ -1246,6 +1268,8 @@ func init() {
 		Rule:        "one run = 1-4 servers (RTT, lag, freeze+catch-up bursts, close/reset/black-hole/refused dials/missing pongs), strategy best-ping or first-working, 1-2 workers per connection, sync or async initialisation, through liteapi.NewClient or the pool API, 10-40 (quick) / 10-60 (thorough) blocks at 0.4-5 s, in 2/5 of runs with one pause of 8-45 s in block production; round-trip times that change for good (1-3 shifts in half of the multi-server runs), servers that go down for 2-40 s (connections reset, dials refused); 1-5 (8) callers with 1-5 ops: WaitMasterchainSeqno(head+k, k=-1..5, timeouts around the block interval, contexts cancelled at drawn instants), BestMasterchainClient, BestMasterchainInfoClient().LiteServerGetMasterchainInfo, Status/ConnectionsNumber; in half of the runs a poller (Wait for head+0/1 with a timeout around the block interval, up to 40 times); 0-3 stalls at (role, lock site) biased to (waiter, unsubscribe), and in 2/9 of the multi-server runs a uniformly slow Run loop (every notification or refresh late by 1-150 ms). A refresh is judged iff the driver granted nothing else between the grant of the pool's write lock to updateBest and its release (forced for 2/3 of refreshes). Non-trivial = every run (several goroutines always interleave); distinct = event-log digest. Abstract states = pool view at quiescent points (best id, waiters, queued updates, per connection alive/head lag) plus the judged selection-grid cells (alive, head-max clipped, RTT rank, current best).",
 		Real:        []string{"liteapi.NewClient (option handling, pool wiring)", "pool.ConnPool: InitializeConnections, Run, updateBest, findBestPingConnection, findFirstWorkingConnection, subscribe/unsubscribe/notifySubscribers, WaitMasterchainSeqno, BestMasterchainClient, BestMasterchainInfoClient, Status", "pool.connection: Run (GetMasterchainInfo / WaitMasterchainBlock loop), SetMasterHead", "liteclient.Client / Connection / encryptedConn underneath"},
 		Simulated:   []string{"lite servers and their chains (litesrv)", "TCP (simnet)", "clock (testing/synctest)", "randomness (seeded)", "goroutine interleaving at mutex acquisitions (controlled mode)"},
+		GridTotals:  map[string]int{"1": 4, "2": 60, "3": 1064, "4": 26000},
+		GridRule:    "judged refreshes by pool size n (key): cell = strategy x per connection in configuration order (alive?, blocks behind the newest known head clipped to 0/1/2+; at least one connection holds the newest head) x, for best-ping, the order of the round-trip times: (6^n - 4^n) x (1 + n!) cells. Sampled by the simulation, not enumerated.",
 		Assumptions: []string{"selection is judged on the pool's own view at the instant of the refresh (SimSnapshot under tag verif), which is the property as stated", "W1 is checked against the heads the simulated servers ever reported (ground truth), W2 exactly only in stall-free runs", "W3 (completeness) only in calm runs with a timeout far above block interval + refresh period + lag", "the head register is checked directly (a read is explained by an earlier write, not older than a completed write, monotone) and with porcupine on the writes that some read returned, at most 400 operations per run", "W5 excuses a missed head only if a stall of a pool-side goroutine was in force during the last millisecond before the call's deadline", "W3 needs heads to flow: no held masterchain info, no pause of block production within two intervals + 20 s + lag of the later of call start and target block"},
 	}})
 }
